@@ -13,23 +13,25 @@
    property is not exposed, and there are no other entries.
    In the composed system model (System/Deliver.v): what a driver publishes in one operation
    reaches the connected network client exactly (each message once, per connection in order,
-   after the wire), and for every operation that publishes no BLOB update the client's mirror
-   stays the normalisation (empty text = absent text, as the wire makes it) of a mirror in
-   sync with the device (the_connected_client_stays_in_sync).
+   after the wire), and the client's mirror stays the normalisation (empty text = absent text, as
+   the wire makes it) of a mirror in sync with the device (the_connected_client_stays_in_sync, and
+   ..._on_both_connections for operations that publish BLOB updates too: System/Reorder.v shows that
+   the order in which the client takes an operation's messages from its two connections does not
+   change the view, because a message about one property acts on that entry alone and as a function
+   of that entry alone).
    The network client's handshake is proved in the system model too (System/Handshake.v): a
    client that connects to a server with one driver and asks for the properties ends with the
    library's policies on its two connections, nothing in flight, and a mirror in sync; and so
-   does every later history of operations that publish no BLOB update (connected_client_history).
-   PARTIAL: operations that publish BLOB updates reach the client over two connections whose
-   relative order is not determined; for them (and for several drivers / several clients at
-   once) the composition is validated by the system-level correspondence, not proved.  That the
-   system model is the real stack (router, serializer, fragmented byte stream, framing) is the
-   correspondence itself.
+   does every later history of operations (connected_client_history_on_both_connections).
+   PARTIAL: the system model settles after every operation; operations that overlap in time with
+   the delivery of earlier ones, and several drivers / several clients at once, are validated by
+   the system-level correspondence (schedules family), not proved.  That the system model is the
+   real stack (router, serializer, fragmented byte stream, framing) is the correspondence itself.
    REFUTED for BLOB payloads (the comparison leaves them out): a definition carries no
    payload (known finding K2). *)
 From Coq Require Import List NArith Bool String.
 Import ListNotations.
-From Indi Require Import Base.Sx Msg.Equality Driver.Model Driver.Props Client.Model Client.Props Client.Update Client.Norm System.Model System.Converge System.Ops System.Deliver System.Handshake.
+From Indi Require Import Base.Sx Msg.Equality Driver.Model Driver.Props Client.Model Client.Props Client.Update Client.Norm System.Model System.Converge System.Ops System.Deliver System.Handshake System.Reorder.
 
 Theorem a_definition_brings_the_entry_in_sync mi d g v :
   vec_on g v = true ->
@@ -141,14 +143,16 @@ Theorem what_a_driver_publishes_is_delivered s c dn e d o :
 Proof. exact (driver_operation_is_delivered s c dn e d o). Qed.
 Print Assumptions what_a_driver_publishes_is_delivered.
 
-(* the composed system model: through every operation that publishes no BLOB update, the connected network
-   client's mirror stays the normalisation of a mirror in sync with the device, the client's inboxes are
-   empty again and the connection state is unchanged *)
+(* the composed system model: through every operation whose ordinary messages come before its BLOB updates
+   (ctl_then_blob: no BLOB update at all, only BLOB updates, or a definition followed by the BLOB update - then
+   the order in which the client takes the messages from its two connections is the order of publication), the
+   connected network client's mirror stays the normalisation of a mirror in sync with the device, the client's
+   inboxes are empty again and the connection state is unchanged *)
 Theorem the_connected_client_stays_in_sync s c e d o :
   one_client s c (d_name d) -> cl_in_ctl c = [] -> cl_in_blob c = [] ->
   find_dev s e = Some d -> e <> cl_ctl c -> e <> cl_blob c ->
   dev_ok d -> op_typed d o -> net_synced (cl_mirror c) d ->
-  Forall (fun m => is_blob_msg m = false) (pubs (snd (step d o))) ->
+  ctl_then_blob (pubs (snd (step d o))) ->
   exists c',
     sy_cls (sstep s (SDrv e o)) = [c'] /\
     net_synced (cl_mirror c') (fst (step d o)) /\ dev_ok (fst (step d o)) /\
@@ -189,3 +193,42 @@ Theorem connected_client_history ops s c e d :
     cl_in_ctl c' = [] /\ cl_in_blob c' = [].
 Proof. exact (network_client_history ops s c e d). Qed.
 Print Assumptions connected_client_history.
+
+(* ---------- the two connections ---------- *)
+(* Ordinary messages travel on the control connection, BLOB updates on the BLOB connection; the client takes
+   the ordinary ones first.  As far as the view is concerned this is the same as taking the messages in the order
+   of publication, provided that within the operation no ordinary message about a property follows a BLOB update
+   about the same property (every operation of the library publishes, per property, the definition first and the
+   update after it; the condition is decidable: blob_updates_lastb). *)
+Theorem order_across_the_two_connections_does_not_matter dn ms a :
+  blob_updates_last dn ms -> mirror_wf a ->
+  forall d v, get_vec (feed a (two_connections ms)) d v = get_vec (feed a ms) d v.
+Proof. exact (fun H W => two_connections_same_view dn ms a H W). Qed.
+Print Assumptions order_across_the_two_connections_does_not_matter.
+
+(* hence: the composed system model, one driver-side operation publishing anything on either connection *)
+Theorem the_connected_client_stays_in_sync_on_both_connections s c e d o :
+  one_client s c (d_name d) -> cl_in_ctl c = [] -> cl_in_blob c = [] ->
+  find_dev s e = Some d -> e <> cl_ctl c -> e <> cl_blob c ->
+  dev_ok d -> op_typed d o -> net_synced (cl_mirror c) d ->
+  blob_updates_last (d_name d) (pubs (snd (step d o))) ->
+  exists c',
+    sy_cls (sstep s (SDrv e o)) = [c'] /\
+    net_synced (cl_mirror c') (fst (step d o)) /\ dev_ok (fst (step d o)) /\
+    find_dev (sstep s (SDrv e o)) e = Some (fst (step d o)) /\
+    one_client (sstep s (SDrv e o)) c' (d_name (fst (step d o))) /\ cl_in_ctl c' = [] /\ cl_in_blob c' = [] /\
+    cl_ctl c' = cl_ctl c /\ cl_blob c' = cl_blob c.
+Proof. exact (network_client_stays_in_sync_two_connections s c e d o). Qed.
+Print Assumptions the_connected_client_stays_in_sync_on_both_connections.
+
+Theorem connected_client_history_on_both_connections ops s c e d :
+  one_client s c (d_name d) -> cl_in_ctl c = [] -> cl_in_blob c = [] ->
+  find_dev s e = Some d -> e <> cl_ctl c -> e <> cl_blob c ->
+  dev_ok d -> net_synced (cl_mirror c) d -> orderly_ops d ops ->
+  exists c',
+    sy_cls (fold_left (fun s o => sstep s (SDrv e o)) ops s) = [c'] /\
+    net_synced (cl_mirror c') (fst (run d ops)) /\
+    find_dev (fold_left (fun s o => sstep s (SDrv e o)) ops s) e = Some (fst (run d ops)) /\
+    cl_in_ctl c' = [] /\ cl_in_blob c' = [].
+Proof. exact (network_client_history_two_connections ops s c e d). Qed.
+Print Assumptions connected_client_history_on_both_connections.
